@@ -39,6 +39,8 @@ pub struct Expansion<A> {
     pub transitions: u64,
     pub succ: Vec<Succ<A>>,
     pub violations: Vec<Violation>,
+    /// number of violations per signature (all of them, not only the materialised ones)
+    pub vio_counts: BTreeMap<String, u64>,
     /// free-form counters merged into the run statistics (outcome histogram, non-vacuity)
     pub counters: BTreeMap<String, u64>,
     /// distinct (state-class, call, outcome-class) triples, see evidence `distinct_nontrivial`
@@ -51,6 +53,7 @@ impl<A> Default for Expansion<A> {
             transitions: 0,
             succ: vec![],
             violations: vec![],
+            vio_counts: BTreeMap::new(),
             counters: BTreeMap::new(),
             nontrivial: vec![],
         }
@@ -75,6 +78,7 @@ pub struct Stats {
     pub capped: Option<String>,
     pub pruned_successors: u64,
     pub counters: BTreeMap<String, u64>,
+    pub vio_counts: BTreeMap<String, u64>,
     pub nontrivial: u64,
     pub wall_s: f64,
     pub samples: Vec<Vec<String>>,
@@ -130,6 +134,9 @@ pub fn bfs<S: Space>(space: &S, limits: &Limits) -> (Stats, Vec<Violation>) {
                 violations.extend(e.violations);
                 for (k, v) in e.counters {
                     *stats.counters.entry(k).or_insert(0) += v;
+                }
+                for (k, v) in e.vio_counts {
+                    *stats.vio_counts.entry(k).or_insert(0) += v;
                 }
                 nontrivial.extend(e.nontrivial);
                 for s in e.succ {
